@@ -174,6 +174,44 @@ class A(Adapter):
             return "solved"
         return None
 
+    # ---- reach probes ---------------------------------------------------------------------------
+    def events(self, ps, action, s, ts, env, cfg):
+        if ps is None:
+            mines = mine_grid(s)
+            R, C = mines.shape
+            ev = ["reset_nonsquare"] if R != C else []
+            if mines[0, 0] or mines[0, C - 1] or mines[R - 1, 0] or mines[R - 1, C - 1]:
+                ev.append("reset_mine_in_corner")
+            if not any(neighbours(mines, int(r), int(c)) == 0 for r, c in np.argwhere(~mines)):
+                ev.append("reset_no_zero_count_square")
+            return ev
+        r, c = int(action[0]), int(action[1])
+        pb = np.asarray(ps.board)
+        mines = mine_grid(ps)
+        first = bool((pb == -1).all())
+        if pb[r, c] != -1:
+            return ["ended_invalid_already_explored"]
+        if mines[r, c]:
+            return ["ended_mine_explored"] + (["mine_on_first_move"] if first else [])
+        n = neighbours(mines, r, c)
+        ev = ["safe_square_revealed"]
+        if n == 0:
+            ev.append("revealed_zero_count")
+        if n >= 3:
+            ev.append("revealed_count_ge_3")
+        if n >= 1 and n == int(mines.sum()):
+            ev.append("revealed_square_touching_every_mine")
+        if r in (0, pb.shape[0] - 1) and c in (0, pb.shape[1] - 1):
+            ev.append("revealed_corner")
+        left = int(((np.asarray(s.board) == -1) & ~mines).sum())  # safe squares still hidden
+        if left == 0:
+            ev.append("ended_solved_last_safe_square")
+            if first:
+                ev.append("solved_by_first_move")
+        elif left == 1:
+            ev.append("one_safe_square_left")
+        return ev
+
     # ---- C12 -------------------------------------------------------------------------------------
     def observe(self, s, obs, env, cfg):
         b, ob = np.asarray(s.board), np.asarray(obs.board)
